@@ -638,6 +638,10 @@ class MultiOrigin(Origin):
         if len(self.origins) < 2:
             raise ValueError("MultiOrigin must have at least two origin")
 
+        # Always store a tuple, whatever sequence type was passed in (deserialization
+        # passes a list), so that equal multi origins compare equal
+        object.__setattr__(self, "origins", tuple(self.origins))
+
         if all(origin.source == self.origins[0].source for origin in self.origins[1:]):
             object.__setattr__(self, "source", self.origins[0].source)
         else:
